@@ -28,7 +28,7 @@ def sh(cmd, **kw):
 if not os.path.isdir(wt):
     subprocess.run(["git", "-C", "/repo", "worktree", "add", "-q", "--detach", wt, "HEAD"], check=True)
 sh("git checkout -q --detach $(git -C /repo rev-parse HEAD) && git checkout -- . && git clean -fdq")
-run = open(os.path.join(d, "run.txt")).read()
+run = open(os.path.join(d, "run.txt")).read().replace("\\\n", " ")
 # the demo: copy line(s) + cargo command from run.txt, retargeted to the confirm worktree
 cmds = []
 for line in run.splitlines():
